@@ -67,6 +67,17 @@ CHECKS = {
         design_ref='DESIGN.md 4/C05',
         note='Positions, paths and edge action names are not compared. Only 4.x syntax is generated.',
     ),
+    'C20': dict(
+        engine='oracle-server write action + Hypothesis model generator + xml.dom.minidom (harness/py/prop_C20.py)',
+        technique='round-trip property testing through an independent reader: generated accepted models -> write_XML_file -> Python minidom -> compared with the document (ids, names, labels, init, endpoints, controllable, selects)',
+        category='exploration',
+        text=('Accepted generated models are parsed, written with write_XML_file and the written file is read by an XML parser '
+              'that shares no code with utap or libxml2; every location, init reference, transition, endpoint, controllable '
+              'flag and non-trivial label of the document must be found in the file, in order, with the text of the library\'s '
+              'own string conversion. Writing must not crash or throw, also for edges through branchpoints and partial instances.'),
+        design_ref='DESIGN.md 4/C20',
+        note='Label text is trusted to str() (decided by C03). Declarations, flags and the system section of the file are not compared.',
+    ),
     'C18': dict(
         engine='rapidcheck + exhaustive loops (harness/cpp/c18.cpp)',
         technique='exhaustive enumeration over int8_t + rapidcheck property-based testing over int32_t/double against set semantics in wide arithmetic',
